@@ -50,6 +50,20 @@ def r1_not_scanned(ctx, rep):
         rep.ob(f"declaration arm {name} precedes the call arm", ok,
                "statements of this kind are consumed before the call scanner" if ok else
                f"{name} arm is after the call arm or scans for calls", py.nloc(a.test))
+    # declarations local to a BLOCK construct are not documented, but they are still declarations: a declaration arm that is
+    # switched off by a condition in its *test* lets the statement fall through to the later arms - `integer :: tmp(5)` then
+    # matches the call regex and `tmp` is recorded as a call
+    from . import c07
+    ctr = c07.block_counter(cs)
+    for name in ("VARIABLE_RE", "ATTRIB_RE"):
+        a = cs.arm_by_regex(name)
+        falls = c07.block_guard_in_test(a, ctr)
+        later_guarded = all(c07.block_guard_in_test(x, ctr) for x in cs.arms if x.index > a.index and "_add_procedure_calls" in x.calls)
+        ok = not falls or later_guarded
+        rep.ob(f"a {name[:-3].lower()} declaration inside a BLOCK construct does not reach the call scanner", ok,
+               "the arm consumes the statement also inside a BLOCK" if ok else
+               f"`{ctr} == 0` is part of the arm's test: inside a BLOCK a declaration is not consumed and falls through to the call arm, "
+               f"`block; integer :: tmp(5); type(foo(4)) :: z` records `tmp` and `foo` as calls", py.nloc(a.test), nontrivial=not ok)
     for lit in ("contains", "private", "sequence"):
         a = cs.arm_by_literal(lit)
         rep.ob(f"literal arm {lit} precedes the call arm", a.index < call_arm.index, "", py.nloc(a.test), nontrivial=False)
